@@ -15,8 +15,10 @@ def run(tier, seed):
                       ("f_occ", 3 if tier == "quick" else 1), ("f_affine", 1), ("f_cascade", 1)):
         ss = getattr(specgen, fam)(tier, seed)
         specs += ss[seed % step::step]
+    from .. import integ
+    specs += [s for s in integ.integration_e1_specs() if not s["name"].endswith("test_translate_no_loops.yaml")]
     return run_e1(PROP, tier, seed, specs, work,
-                  "F-plain, F-shape, F-occ (sampled in quick), F-affine, F-cascade",
+                  "F-plain, F-shape, F-occ (sampled in quick), F-affine, F-cascade, the specifications shipped in tests/integration",
                   "as the families; after execution every variable <DeclaredTensor>_<Suffix> bound to a tensor must satisfy "
                   "''.join(rank_ids) == Suffix (a _flat marker stripped); every result is bound under <Output>_<declared-or-rank-order ranks> "
                   "with original coordinates; every input object is the same object with the same rank ids and - by a solver query where "
